@@ -134,11 +134,27 @@ def numLoop (s : List Char) (len : Nat) : Nat → Nat → Nat → Nat × Nat
       numLoop s len fuel (i + 1) ((val * 10 + ((chr s i).toNat ^^^ 48)) % 2^32)
     else (i, val)
 
-/-- the `more_time:` part; `step` as in the C code -/
+/-- the digits behind a decimal point: hundreds, tens and units of milliseconds, further digits are read over
+(`for (i++; i < len; i++, mul /= 10U) { … frac += tmp * mul; }`) -/
+def fracLoop (s : List Char) (len : Nat) : Nat → Nat → Nat → Nat → Nat × Nat
+  | 0, i, _, frac => (i, frac)
+  | fuel+1, i, mul, frac =>
+    if i < len ∧ (chr s i).toNat < 128 ∧ ((chr s i).toNat ^^^ 48) < 10 then
+      fracLoop s len fuel (i + 1) (mul / 10) (frac + ((chr s i).toNat ^^^ 48) * mul)
+    else (i, frac)
+
+/-- the `more_time:` part; `step` as in the C code; a number may carry a fraction, which must be seconds' -/
 def idiffTime (s : List Char) (len : Nat) : Nat → Nat → Nat → Int → Nat × Int
   | 0, i, _, msd => (i, msd)
   | fuel+1, i, step, msd =>
     let (i, val) := numLoop s len (len + 1) i 0
+    let fr : Option (Nat × Nat) := if i < len ∧ chr s i = '.' then some (fracLoop s len (len + 1) (i + 1) 100 0) else none
+    match (match fr with
+           | some (j, frac) => if j ≥ len ∨ chr s j ≠ 'S' then (none : Option (Nat × Int)) else some (j, msd + (frac : Int))
+           | none => some (i, msd)), fr with
+    | none, some (j, _) => (j, msd)            -- `goto out`
+    | none, none => (i, msd)
+    | some (i, msd), _ =>
     let c := if (chr s i).toNat < 128 then (chr s i).toNat ||| step else 0
     let i := i + 1
     if c = 72 then idiffTime s len fuel i (step ||| 0x1) (msd + (val : Int) * 3600000)        -- 'H'
@@ -192,8 +208,13 @@ def idiffStrf (d : Int) : List Char :=
       let mi := r / 60000
       let r := r % 60000
       let sec := r / 1000
+      let ms := r % 1000
+      let dig := fun (k : Nat) => Char.ofNat (48 + k)
       ['T'] ++ (if h ≠ 0 then tostr h ++ ['H'] else []) ++ (if mi ≠ 0 then tostr mi ++ ['M'] else [])
-        ++ (if sec ≠ 0 then tostr sec ++ ['S'] else [])
+        ++ (if sec ≠ 0 ∨ ms ≠ 0 then
+              (if sec ≠ 0 then tostr sec else ['0']) ++
+              (if ms ≠ 0 then ['.', dig (ms / 100), dig (ms / 10 % 10), dig (ms % 10)] else []) ++ ['S']
+            else [])
     else []
   sign ++ ['P'] ++ p1 ++ p2
 
